@@ -11,6 +11,8 @@ value that reaches a decision or an ordering is invariant under sigma.  This mod
                          pair iff unparse(dualize(arm_min)) == unparse(arm_max) up to normalisation
 """
 import ast
+
+from ..engine import argn
 import copy
 
 from ..core.facts import U
@@ -90,7 +92,7 @@ def fold_mode(e, mode, mode_flags=(), env=None):
             return None
         return fold_mode(e.body if c else e.orelse, mode, mode_flags, env)
     if isinstance(e, ast.Call) and isinstance(e.func, ast.Name) and e.func.id in ("float", "int") and len(e.args) == 1:
-        v = fold_mode(e.args[0], mode, mode_flags, env)
+        v = fold_mode(argn(e, 0), mode, mode_flags, env)
         return None if v is None else (float(v) if e.func.id == "float" else int(v))
     return None
 
@@ -189,9 +191,9 @@ class _Dual(ast.NodeTransformer):
 
     def visit_Call(self, n):
         n = self.generic_visit(n)
-        if isinstance(n.func, ast.Name) and n.func.id == "float" and len(n.args) == 1 and isinstance(n.args[0], ast.Constant) \
-                and isinstance(n.args[0].value, str) and n.args[0].value.lstrip("+-").lower() in ("inf", "infinity"):
-            v = n.args[0].value
+        if isinstance(n.func, ast.Name) and n.func.id == "float" and len(n.args) == 1 and isinstance(argn(n, 0), ast.Constant) \
+                and isinstance(argn(n, 0).value, str) and argn(n, 0).value.lstrip("+-").lower() in ("inf", "infinity"):
+            v = argn(n, 0).value
             n.args = [ast.Constant(value=v[1:] if v.startswith("-") else "-" + v.lstrip("+"))]
         return n
 
